@@ -21,16 +21,21 @@ def build_text(loader):
             m = loader.build_metamodel(xtuml.IntegerGenerator())
     except CallTimeout:
         return 'Timeout', None
-    except xtuml.ParsingException:
-        return 'ParsingException', None
-    except xtuml.MetaException:
-        return 'MetaException', None
+    except xtuml.ParsingException as e:
+        return 'ParsingException', 'message: %s' % e        # (file name and line of the offending statement included)
+    except xtuml.MetaException as e:
+        return 'MetaException', 'message: %s' % e
     except Exception as e:
         return 'PY:' + type(e).__name__, None
     try:
         return 'built', xtuml.serialize(m)
     except Exception as e:
         return 'built', 'unserializable:' + type(e).__name__
+
+
+def signature(loader):
+    """the accumulated statements: kind, file name and line of each"""
+    return [(type(s).__name__, getattr(s, 'filename', None), getattr(s, 'lineno', None)) for s in loader.statements]
 
 
 def run(r):
@@ -54,7 +59,10 @@ def run(r):
             twin.input(text, name='<t%d>' % k)
         ev['res'] = res
         ev['n'] = len(loader.statements)
-        ev['twin'] = True
+        # the loader that saw the rejected texts holds the same statements, from the same lines, as its twin that did not
+        ev['twin'] = bool(res != 'accepted' or signature(loader) == signature(twin)) if res != 'Timeout' else True
+        if res not in ('accepted', 'Timeout'):
+            ev['twin'] = signature(loader) == signature(twin)
         events.append(ev)
         if res == 'Timeout':
             break
